@@ -327,7 +327,11 @@ def check_ts(case, ctx):
 def strat_fs_case(draw):
     return {"nbins": draw(st.one_of(st.integers(1, 40), st.integers(1, 40), st.sampled_from(SPECIAL_N))), "seed": draw(st.integers(0, 2**31 - 1)), "meta": draw(meta),
             "float_kind": draw(st.sampled_from(["int", "any"])), "fmt": draw(st.sampled_from(["spec", "fft"])),
-            "stem": draw(st.integers(0, len(STEMS) - 1)), "hdr_nbits": draw(st.sampled_from([32, 32, 8, 16, 1, 2, 4]))}
+            "stem": draw(st.integers(0, len(STEMS) - 1)), "hdr_nbits": draw(st.sampled_from([32, 32, 8, 16, 1, 2, 4])),
+            # how many time samples the header says the spectrum came from: numpy's rfft of an even or odd length,
+            # PRESTO's convention (N samples -> N/2 bins, as in any .fft file made by PRESTO and loaded here), or
+            # no particular relation - the class does not tie the two together
+            "len_kind": draw(st.sampled_from(["rfft_even", "rfft_even", "rfft_odd", "presto", "presto_odd", "bins"]))}
 
 
 def check_fs(case, ctx):
@@ -338,7 +342,7 @@ def check_fs(case, ctx):
     flat = f32_values(case["seed"], (2 * nb,), case["float_kind"])
     data = flat.view(np.complex64)
     m = case["meta"]
-    L = 2 * (nb - 1) if nb > 1 else 1
+    L = {"rfft_even": 2 * (nb - 1), "rfft_odd": 2 * nb - 1, "presto": 2 * nb, "presto_odd": 2 * nb + 1, "bins": nb}[case.get("len_kind", "rfft_even")]
     hdr = mk_header(os.path.join(d, "src.spec"), case.get("hdr_nbits", 32), 1, max(L, 1), data_type="time series", **m)
     fs = FourierSeries(data, hdr)
     if case["fmt"] == "spec":
@@ -373,7 +377,7 @@ def check_fs(case, ctx):
     if not same_bits(back.data.view(np.float32), flat):
         raise Violation(f"{case['fmt']}:values", f"nbins={nb}")
     check_meta(back.header, m, presto=presto, what=case["fmt"])
-    return Info(True, (case["fmt"],))
+    return Info(True, (case["fmt"], "header_length_" + case.get("len_kind", "rfft_even")))
 
 
 def subchecks(tier):
